@@ -110,6 +110,8 @@ def make_app():
                     self.clear_header("Content-Type")
                 else:
                     self.set_header("Content-Type", c["ct"])
+                if c.get("status"):
+                    self.set_status(c["status"])
                 if c["vary"]:
                     self.set_header("Vary", c["vary"])
                 if c["ce"]:
@@ -194,7 +196,7 @@ def run_request(app, case, method):
     """One request through the real server.  Returns dict of observations."""
     CUR.clear()
     CUR.update(ct=case["ct"], vary=case.get("vary"), ce=case.get("ce"), cl=case.get("cl"),
-               kind=case["kind"], prog=[tuple(op) for op in case["prog"]], marks=[], exc=None)
+               kind=case["kind"], prog=[tuple(op) for op in case["prog"]], marks=[], exc=None, status=case.get("status"))
     ver = case["ver"]
     req = "%s / HTTP/%s\r\nHost: a\r\n" % (method, ver)
     if case["ae"] is not None:
@@ -423,8 +425,37 @@ class C29(Check):
         parts += [("B", i, nb, depth) for i in range(nb)]
         return parts
 
+    def run_bodiless(self, app, st):
+        """Responses without a body (204, 304) still vary on Accept-Encoding."""
+        for status in (204, 304):
+            for ae in (None, "gzip", "identity"):
+                for vary in (None, "Cookie"):
+                    for ver in ("1.1", "1.0"):
+                        for method in ("GET", "HEAD"):
+                            case = {"ct": "text/html", "vary": vary, "ce": None, "cl": None, "kind": "text", "prog": [["F", None]],
+                                    "ver": ver, "ae": ae, "status": status}
+                            ob = run_request(app, case, method)
+                            st.ev()
+                            st.nontriv(("bodiless", status, ae, vary, ver, method))
+                            resps, problems = httph.read_responses(ob["out"], [method], ob["closed"])
+                            tag = "status-%d" % status
+                            if ob["exc"] or problems or len(resps) != 1 or resps[0].code != status:
+                                st.violation("bodiless:response:" + tag, "%s HTTP/%s status %d: exc=%r problems=%r codes=%r"
+                                             % (method, ver, status, ob["exc"], problems, [r.code for r in resps]), {"bodiless": case, "method": method})
+                                continue
+                            v = tokens(resps[0].get_all("vary"))
+                            if "accept-encoding" not in v:
+                                st.violation("vary-missing:" + tag, "%s HTTP/%s status %d Accept-Encoding=%r: Vary %r lacks Accept-Encoding"
+                                             % (method, ver, status, ae, v), {"bodiless": case, "method": method})
+                            if vary and vary.lower() not in v:
+                                st.violation("vary-lost:" + tag, "handler's Vary %r lost: %r" % (vary, v), {"bodiless": case, "method": method})
+                            if resps[0].body:
+                                st.violation("bodiless:body", "status %d carries a body" % status, {"bodiless": case, "method": method})
+
     def run_partition(self, part, tier, st):
         app = make_app()
+        if part[0] == "A" and part[1] == 0:
+            self.run_bodiless(app, st)
         if part[0] == "A":
             _, i, n = part
             for k, case in enumerate(space_a()):
@@ -449,6 +480,9 @@ class C29(Check):
         st.setmax("program_depth", depth + 1)
 
     def replay(self, case):
+        if "bodiless" in case:
+            ob = run_request(make_app(), case["bodiless"], case["method"])
+            return repr(ob["out"])
         case = dict(case)
         case["prog"] = [list(op) for op in case["prog"]]
         app = make_app()
